@@ -8,18 +8,22 @@ import (
 )
 
 type SourceLink struct {
-	source *gedcom.SourceNode
+	document  *gedcom.Document
+	source    *gedcom.SourceNode
+	placesMap map[string]*place
 }
 
-func NewSourceLink(source *gedcom.SourceNode) *SourceLink {
+func NewSourceLink(document *gedcom.Document, source *gedcom.SourceNode, placesMap map[string]*place) *SourceLink {
 	return &SourceLink{
-		source: source,
+		document:  document,
+		source:    source,
+		placesMap: placesMap,
 	}
 }
 
 func (c *SourceLink) WriteHTMLTo(w io.Writer) (int64, error) {
 	text := c.source.Title()
-	destination := PageSource(c.source)
+	destination := PageSource(c.document, c.source, c.placesMap)
 
 	return core.NewLink(core.NewText(text), destination).WriteHTMLTo(w)
 }
